@@ -73,6 +73,14 @@ def main(tier, replay, t0):
     shaders["big400.wgsl"] = big_shader(400)
     shaders["big1200.wgsl"] = big_shader(1200)
     size_classes = {"small": small_names, "large": ["big400.wgsl", "big1200.wgsl"]}
+    delays = (0, 50)
+    if tier == "thorough":
+        # every corpus shader goes through every fault; more timings
+        small_names = [n for n in sorted(shaders) if not n.startswith("big")]
+        shaders["big3000.wgsl"] = big_shader(3000)
+        size_classes = {"small": small_names,
+                        "large": ["big400.wgsl", "big1200.wgsl", "big3000.wgsl"]}
+        delays = (0, 5, 50, 250)
 
     # reference: formatter off (canonical hash) for every shader
     jobs = [{"id": n, "source": s, "opt": {"en": True}, "canon": True}
@@ -82,6 +90,9 @@ def main(tier, replay, t0):
     if len(ref) != len(jobs):
         raise core.Inconclusive("reference run lost results")
     usable = {n for n, r in ref.items() if r["result"] == "ok" and r.get("canon_sha")}
+    if tier == "thorough":
+        size_classes["small"] = [n for n in size_classes["small"] if n in usable]
+        small_names = size_classes["small"]
     for n in small_names + size_classes["large"]:
         if n not in usable:
             raise core.Inconclusive("reference (formatter off) failed for %s: %r" % (
@@ -128,7 +139,7 @@ def main(tier, replay, t0):
     runs = []
     for fault in FAULTS:
         for sz, names in size_classes.items():
-            for delay in (0, 50):
+            for delay in delays:
                 cell = "%s|%s|delay%d" % (fault, sz, delay)
                 jobs = [{"id": n, "source": shaders[n], "opt": {"fmt": True, "en": True}, "canon": True}
                         for n in names]
@@ -145,7 +156,7 @@ def main(tier, replay, t0):
                     e["VERIF_FP_RUSTFMT_SPAWNED_MS"] = str(delay)
                 runs.append((cell, names, jp, rp, e))
     # real formatter over the whole corpus (on vs off), in both delays
-    for delay in (0, 50):
+    for delay in delays:
         cell = "real|corpus|delay%d" % delay
         names = sorted(usable)
         jp = os.path.join(work, "real_corpus_%d.jobs.jsonl" % delay)
@@ -232,7 +243,7 @@ def main(tier, replay, t0):
         if len(samples) < 8 and cell.split("|")[0] in ("kill_before_read", "empty_ok", "absent",
                                                        "read_some_then_exit1"):
             samples.append({"cell": cell, "outcome": outcome})
-    expected_cells = len(FAULTS) * 2 * 2 + 2
+    expected_cells = len(FAULTS) * 2 * len(delays) + len(delays)
     if len(cells) != expected_cells:
         inconclusive.append("only %d of %d cells ran" % (len(cells), expected_cells))
     core.finish("C19", tier, "fault_enumeration", t0, viol, {
